@@ -3,11 +3,21 @@
 usage: seedtest.py <prop> <n> [checks...]     (source: /tmp/seed/<prop>/out/<n>/)
 """
 import json, os, shutil, subprocess, sys, time
+VERIF = os.path.dirname(os.path.dirname(os.path.abspath(__file__)))
 
-prop, n = sys.argv[1], sys.argv[2]
-checks = sys.argv[3:] or [prop]
-wt = f"/tmp/seed/{prop}"
-src = f"{wt}/out/{n}"
+if sys.argv[1] == "--r2":          # round 2 layout: /tmp/seed2/<group>/out/<i>/{prop.txt,patch.diff,demo.py,notes.txt}
+    grp, n = sys.argv[2], sys.argv[3]
+    wt = f"/tmp/seed2/{grp}"
+    src = f"{wt}/out/{n}"
+    prop = open(f"{src}/prop.txt").read().split()[0].strip(":")
+    checks = sys.argv[4:] or [prop]
+    tag = f"{prop}-r2{grp}{n}"
+else:
+    prop, n = sys.argv[1], sys.argv[2]
+    checks = sys.argv[3:] or [prop]
+    wt = f"/tmp/seed/{prop}"
+    src = f"{wt}/out/{n}"
+    tag = f"{prop}-{n}"
 patch = f"{src}/patch.diff"
 
 
@@ -38,7 +48,7 @@ results = {}
 try:
     for c in checks:
         t0 = time.time()
-        rc, out = sh(f"./check {c} --tier quick", "/verif", timeout=3000)
+        rc, out = sh(f"./check {c} --tier quick", VERIF, timeout=3000)
         lines = [l for l in out.splitlines() if l.startswith("VIOLATION") or l.startswith("[")]
         results[c] = {"exit": rc, "violation_lines": [l for l in lines if l.startswith("VIOLATION")][:3], "seconds": round(time.time() - t0)}
         print(c, "exit", rc, lines[-1] if lines else out[-300:])
@@ -54,15 +64,15 @@ try:
                 break
 finally:
     sh("git -C /repo checkout -- .")
-    for t in ("tr_lexer", "tr_parser_tables", "tr_generator_tables", "tr_ast", "tr_state"):
-        sh(f"/venv/bin/python /verif/translator/{t}.py /verif/coq/gen")      # gen/ follows the restored tree again
+    for t in ("tr_lexer", "tr_parser_tables", "tr_generator_tables", "tr_ast", "tr_state", "tr_litspec"):
+        sh(f"/venv/bin/python {VERIF}/translator/{t}.py {VERIF}/coq/gen")      # gen/ follows the restored tree again
 meta["checks"] = results
 meta["detected_by"] = [c for c, r in results.items() if r["exit"] == 1]
 meta["what_ran"] = [f"./check {c} --tier quick (with the patch applied to /repo, undone afterwards)" for c in checks]
-dst = f"/verif/seeded/{prop}-{n}"
+dst = f"{VERIF}/seeded/{tag}"
 os.makedirs(dst, exist_ok=True)
-for f in ("patch.diff", "demo.py", "notes.txt"):
-    if os.path.exists(f"{src}/{f}"):
+for f in os.listdir(src):
+    if f != "prop.txt" and os.path.isfile(f"{src}/{f}"):
         shutil.copy(f"{src}/{f}", dst)
 meta["needs"] = open(f"{src}/notes.txt").read()[:1500] if os.path.exists(f"{src}/notes.txt") else ""
 json.dump(meta, open(f"{dst}/meta.json", "w"), indent=1)
